@@ -25,6 +25,11 @@ CHECKS = {
     text='ROUND/ROUNDUP/ROUNDDOWN/TRUNC/INT/MOD/CEILING*/FLOOR*/EVEN/ODD are defined on integer pairs (k, j); TLC checks bracket, fixed-point, tie, MOD-identity and duality laws on every enumerated state (ties and near-ties generated exactly) and each state is executed on excellib and through compiled formulas.',
     note='CEILING/FLOOR sign conventions with negative arguments accept either neighbour; decimal significances (0.1) and magnitudes beyond 1e9 are outside the domain; binary floats only get the magnitude laws',
     ref='§3 C19'),
+ 'C08': dict(
+    technique='Trim.tla (Engine + trim_graph written like the code) explored exhaustively by TLC per (inputs, outputs) choice; every transition replayed on the real model, an untrimmed twin and a save/load twin',
+    text='TLC checks TrimEquiv (every output evaluation after Trim(I,O) returns Fresh of the untrimmed sheet) over all evaluate/set_value histories before and after the trim for sampled (I,O) choices incl. range inputs and buried inputs; the tour executes every transition on the real ExcelCompiler and compares each output with the untrimmed model under the same assignments, directly and after to_file/from_file (yml, json, pkl), plus the projected state incl. the frozen set.',
+    note='outputs are evaluated before the trim (frozen cells need a value); only leaf inputs are assigned after the trim; |I|,|O| <= 2',
+    ref='§3 C08'),
  'C18': dict(
     technique='TLA+ odometer machine (Radix.tla) model-checked by TLC; every reachable state exported as a vector and executed on the real functions',
     text='TLC checks the two\'s-complement definitions (successor adds one, regrouping of bits agrees, extremes) on all 1024 binary strings and on 128-step walks across every octal/hex boundary; each visited state is then a test vector for DEC2x/x2DEC/x2y, places 1..10, illegal characters and over-long strings, through library calls and compiled formulas.',
